@@ -798,8 +798,17 @@ func exprFns(thorough bool, emit func(Fn)) {
 	env := map[string]iv{"a": ivK(-2, 7), "b": ivK(-2, 7)}
 	leaves := []*ie{V("a"), V("b"), K(3), K(-5)}
 	ops := []string{"+", "-", "*", "/", "%", "&", "|", "^", "<<", ">>"}
+	// A non-constant shift whose left operand is an untyped constant takes its
+	// type from the context; inside another shift's count that context is
+	// unsigned and Go rejects a negative constant there. Such counts are skipped.
+	constShift := func(e *ie) bool {
+		return (e.op == "<<" || e.op == ">>") && e.l.op == "k"
+	}
 	mk := func(op string, l, r *ie) *ie {
 		if op == "<<" || op == ">>" {
+			if constShift(r) {
+				return nil
+			}
 			return &ie{op: op, l: l, r: &ie{op: "bound", v: "(" + r.String() + " & 3)", k: 0, l: K(3)}}
 		}
 		return B(op, l, r)
@@ -840,11 +849,13 @@ func exprFns(thorough bool, emit func(Fn)) {
 				if !thorough && (l.op == "k" || e.l == nil || e.l.op == "k" || (e.r != nil && e.r.op == "k")) {
 					continue // quick: depth 2 only over variables
 				}
-				x := mk(op, e, l)
-				add("expr2", ii, []Ty{TInt}, "\treturn "+x.String()+"\n", x)
+				if x := mk(op, e, l); x != nil {
+					add("expr2", ii, []Ty{TInt}, "\treturn "+x.String()+"\n", x)
+				}
 				if thorough {
-					y := mk(op, l, e)
-					add("expr2", ii, []Ty{TInt}, "\treturn "+y.String()+"\n", y)
+					if y := mk(op, l, e); y != nil {
+						add("expr2", ii, []Ty{TInt}, "\treturn "+y.String()+"\n", y)
+					}
 				}
 			}
 		}
